@@ -81,7 +81,17 @@ def uninstall_clock():
 # ------------------------------------------------------------------ engine
 
 def default_policies():
-    return copy.deepcopy(core_policy.policies)
+    """The built-in policies plus 'open', a harness policy granting everything to everyone
+    (the built-in 'public' policy only covers Template objects, so a stored object under it is
+    inaccessible even to its owner)."""
+    pols = copy.deepcopy(core_policy.policies)
+    section = {}
+    for t in pols['default']['preset']:
+        section[t] = {op: enums.Policy.ALLOW_ALL for op in pols['default']['preset'][t]}
+        for op in (enums.Operation.SET_ATTRIBUTE, enums.Operation.MODIFY_ATTRIBUTE, enums.Operation.DELETE_ATTRIBUTE):
+            section[t][op] = enums.Policy.ALLOW_ALL
+    pols['open'] = {'preset': section}
+    return pols
 
 
 def make_engine(db_path, policies=None):
